@@ -46,6 +46,9 @@ def one(src):
     elif prop.startswith('W'):
         # sixth round: worktrees /tmp/wt/W<nn>, stored as <prop>-r13, r14
         prop, k = 'C' + prop[1:], str(int(k) + 12)
+    elif prop.startswith('Y'):
+        # eighth round: worktrees /tmp/wt/Y<nn>, one re-implementation each, stored as <prop>-r17
+        prop, k = 'C' + prop[1:], str(int(k) + 16)
     elif prop.startswith('X'):
         # seventh round: worktrees /tmp/wt/X<nn>, stored as <prop>-r15, r16
         prop, k = 'C' + prop[1:], str(int(k) + 14)
@@ -105,7 +108,7 @@ def one(src):
 
 
 def main():
-    srcs = sorted(glob.glob('/tmp/wt/C*/out/ref*') + glob.glob('/tmp/wt/R*/out/ref[0-9]') + glob.glob('/tmp/wt/S*/out/ref[0-9]') + glob.glob('/tmp/wt/T*/out/ref[0-9]') + glob.glob('/tmp/wt/U*/out/ref[0-9]') + glob.glob('/tmp/wt/W*/out/ref[0-9]') + glob.glob('/tmp/wt/X*/out/ref[0-9]'))
+    srcs = sorted(glob.glob('/tmp/wt/C*/out/ref*') + glob.glob('/tmp/wt/R*/out/ref[0-9]') + glob.glob('/tmp/wt/S*/out/ref[0-9]') + glob.glob('/tmp/wt/T*/out/ref[0-9]') + glob.glob('/tmp/wt/U*/out/ref[0-9]') + glob.glob('/tmp/wt/W*/out/ref[0-9]') + glob.glob('/tmp/wt/X*/out/ref[0-9]') + glob.glob('/tmp/wt/Y*/out/ref[0-9]'))
     if len(sys.argv) > 1:
         srcs = [s for s in srcs if any(a in s for a in sys.argv[1:])]
     with concurrent.futures.ThreadPoolExecutor(6) as ex:
